@@ -10,9 +10,8 @@
    multiplexing ranges, long names, cycle times, initial values, CAN FD / J1939 frame formats).  Proved below: the composed theorem
    for the core subset (C05_dbc_core_roundtrip, C05_dbc_write_fixed_point) and, for the statement kinds outside it, the mechanism
    theorem of each (long names, ENUM keys, initial values, multiplex tokens incl. m<n>M, identifiers, start bits).
-   Left out (no theorem): format_float_parses_back (str(Decimal) is not modelled; the rendered numbers are compared with an
-   independent parser by the harness), comments, signal groups, environment variables, SG_MUL_VAL_ ranges. *)
-From CM Require Import lib.Prelude model.Startbit model.ArbId model.FmtDbc proofs.C05_mech proofs.C05_core.
+   Left out (no theorem): comments, signal groups, environment variables, SG_MUL_VAL_ ranges, attribute definitions and defaults. *)
+From CM Require Import lib.Prelude model.Startbit model.ArbId model.FmtDbc proofs.C05_mech proofs.C05_core proofs.C05_num.
 
 (* the DBC start bit (LSB0 number of the least significant bit for Intel, of the most significant bit for Motorola) read back
    gives the internal start bit again - every width, byte order and position *)
@@ -58,7 +57,7 @@ Print Assumptions C05_mux_token_roundtrip.
 
 (* names of any length within one scope (ECUs of a matrix, frames of a matrix, signals of a frame, environment variables):
    shortened to 32 characters + System*LongSymbol attribute, restored by the reader.
-   Hypothesis, stated not hidden: the 32-character prefixes are unique within the scope. *)
+   Premise, stated not hidden: the 32-character prefixes are unique within the scope. *)
 Theorem C05_long_name_roundtrip :
   forall ns, NoDup (map short_name ns) -> r_names (w_short_names ns) (w_long_attrs ns) = ns.
 Proof. exact long_names_roundtrip. Qed.
@@ -101,6 +100,16 @@ Theorem C05_start_attr_fixed_point :
     write_start_attr (write_start_attr attr_in I O F MIN MAX) I O F MIN MAX = write_start_attr attr_in I O F MIN MAX.
 Proof. exact start_attr_fixed_point. Qed.
 Print Assumptions C05_start_attr_fixed_point.
+
+(* dbc.format_float: every finite Decimal (sign, digit string without leading zeros, any exponent: positional and scientific
+   notation, exponents padded to three digits, trailing zeros, negative numbers) is rendered as a text that Decimal(text) parses
+   to the same sign, digits and exponent - except that a trailing ".0" is cut, which gives the same value at exponent 0. *)
+Theorem C05_format_float_parses_back :
+  forall neg ds e, canonical ds ->
+    exists ds' e', dec_parse (format_float (neg, ds, e)) = Some (neg, ds', e') /\
+      ((ds' = ds /\ e' = e) \/ (e = -1 /\ e' = 0 /\ dval ds = 10 * dval ds')).
+Proof. exact format_float_parse. Qed.
+Print Assumptions C05_format_float_parses_back.
 
 (* statement level, core subset (ECUs, value tables, frames, all senders, signals with placement, byte order, sign, float type,
    scaling, limits, unit, receivers, simple multiplexing, value descriptions): reading what was written gives the matrix back,
